@@ -44,8 +44,8 @@ func (c *FnCtx) setLock(st *State, m, v string) {
 }
 
 type guardInfo struct {
-	mu     string   // mutex address term
-	owner  string   // owning object
+	mu     string // mutex address term
+	owner  string // owning object
 	ownerT types.Type
 	sub    []string // fields of a sub-object guarded by the owner's mutex
 }
